@@ -1,4 +1,5 @@
-(* Marple's fast recursions under the loop-IR tie: the order-0 branches and the argument check, for ALL inputs.
+(* Marple's fast recursions under the loop-IR tie: the order-0 branches, the argument check, and the first pass of
+   modcovar_marple (order 1), for ALL inputs.
 
    [prog_arcovar_marple_gen0] / [prog_modcovar_marple_gen0] are, verbatim (between the BEGIN/END markers), the loop-IR
    programs that tools/props/_loopir.py generates from spectrum.covar.arcovar_marple and spectrum.modcovar.modcovar_marple
@@ -14,7 +15,12 @@
                                 (and the int 0 the code returns in place of the list pbv)
      modcovar_marple_ir_order0  IP = 0: the run returns ([], P, []) with P = Model.CovarMarple.modcovar_marple x 0
                                 (the accumulation loop over K = 1..N-2, x.real**2 + x.imag**2 = |x|^2, .5*R1 = R1/2)
-   NOT PROVED: orders >= 1 (the main loops); they stay with the exact evaluation tie, zero tolerance, on every run. *)
+     modcovar_marple_ir_order1  IP = 1: the run returns (A, P, [P]) with (A, P) = Model.CovarMarple.modcovar_marple x 1: one full pass of
+                                the main loop (the lag-1 accumulation loop, the stores into R, A, the order update of P, the early
+                                return with its normalisation .5*P/float(N-1) and the appended list), against the model's
+                                simultaneous-update reading; closed form [mod1_model]
+   NOT PROVED: arcovar_marple at orders >= 1, modcovar_marple at orders >= 2 (the time-update blocks and the in-place symmetric
+   loops); they stay with the exact evaluation tie, zero tolerance, on every run. *)
 From Coq Require Import String ZArith List Lia Bool.
 Require Import Spectrum.Theory.Ops Spectrum.Theory.Sum Spectrum.Theory.Vec Spectrum.Model.LoopIR Spectrum.Model.CovarMarple
                Spectrum.Proofs.LoopIRLevinson.
@@ -363,9 +369,9 @@ Proof. unfold two. cbv [lit ofZ ofnat Pos.to_nat Pos.iter_op Nat.add]. ring. Qed
 Lemma lit_half : @lit F OF 1 1 = 1 / two.
 Proof. unfold two. cbv [lit ofZ ofnat Pos.to_nat Pos.iter_op Nat.add Nat.pow Nat.mul]. field. apply two_neq_0. Qed.
 
-Definition mst (t : bool) (x : list F) (v8 v9 : value) : store :=
+Definition mst (t : bool) (x : list F) (ip : Z) (v8 v9 : value) : store :=
   let Zr := VArr false (mk (length x) (fun _ => 0)) in
-  [VArr t x; VI 0; VArr true []; VI (Z.of_nat (length x)); Zr; Zr; Zr; Zr; v8; v9;
+  [VArr t x; VI ip; VArr true []; VI (Z.of_nat (length x)); Zr; Zr; Zr; Zr; v8; v9;
    VUnbound; VUnbound; VUnbound; VUnbound; VUnbound; VUnbound; VUnbound; VUnbound; VUnbound; VUnbound; VUnbound; VUnbound;
    VUnbound; VUnbound; VUnbound; VUnbound; VUnbound; VUnbound; VUnbound; VUnbound; VUnbound; VUnbound; VUnbound].
 
@@ -375,17 +381,17 @@ Definition mod_init_body : stmt :=
   SAssign 8 (EBin BAdd (EVar 8) (EBin BMul (ELit 2 0) (EBin BAdd (EBin BMul (EReal (EIndex (EVar 0) (EVar 9))) (EReal (EIndex (EVar 0) (EVar 9)))) (EImagSq (EIndex (EVar 0) (EVar 9)))))).
 Definition mod_init_loop : stmt := SFor 9 (EInt 1) (EBin BSub (EVar 3) (EInt 1)) (EInt 1) mod_init_body.
 
-Lemma mod_init_loop_ok t (x : list F) s0 v9 :
+Lemma mod_init_loop_ok t (x : list F) ip s0 v9 :
   exists v9',
-  exec mod_init_loop (mst t x (VF s0) v9) =
-  (mst t x (VF (lsum (length x - 2) (fun k => lit 2 0 * sqparts (nthF x (k + 1))) s0)) v9', CNormal).
+  exec mod_init_loop (mst t x ip (VF s0) v9) =
+  (mst t x ip (VF (lsum (length x - 2) (fun k => lit 2 0 * sqparts (nthF x (k + 1))) s0)) v9', CNormal).
 Proof.
   set (N := length x).
   unfold mod_init_loop, mst. ev. fold N. unfold range_vals. change (1 =? 0)%Z with false. cbv iota.
   rewrite range_len_1. replace (Z.to_nat (Z.of_nat N - 1 - 1)) with (N - 2)%nat by lia. cbn [try].
   destruct (for_loop_inv_from (exec mod_init_body) 9%nat
-              (fun i s => exists w, s = mst t x (VF (lsum i (fun k => lit 2 0 * sqparts (nthF x (k + 1))) s0)) w)
-              1%Z (N - 2)%nat (mst t x (VF s0) v9)) as [s' [E [w Hw]]].
+              (fun i s => exists w, s = mst t x ip (VF (lsum i (fun k => lit 2 0 * sqparts (nthF x (k + 1))) s0)) w)
+              1%Z (N - 2)%nat (mst t x ip (VF s0) v9)) as [s' [E [w Hw]]].
   - exists v9. reflexivity.
   - intros i s Hi [w ->]. eexists. split; [|eexists; reflexivity].
     unfold mst, mod_init_body. ev. fold N.
@@ -414,7 +420,7 @@ Proof.
   erewrite xseq; [|ev; fold N; reflexivity].
   do 4 (erewrite xseq; [|ev; rewrite zlt0, Nat2Z.id; reflexivity]).
   erewrite xseq; [|ev; reflexivity].
-  destruct (mod_init_loop_ok t x (lit 0 0) VUnbound) as [v9 EL]. unfold mst, mod_init_loop, mod_init_body in EL. fold N in EL.
+  destruct (mod_init_loop_ok t x 0%Z (lit 0 0) VUnbound) as [v9 EL]. unfold mst, mod_init_loop, mod_init_body in EL. fold N in EL.
   erewrite xseq; [|exact EL].
   erewrite xseq; [|ev; fold N; rewrite I0; ev; reflexivity].
   erewrite xseq; [|ev; fold N; rewrite I1; ev; reflexivity].
@@ -438,8 +444,166 @@ Proof.
   rewrite sumf_scale. unfold nrm2.
   field. apply two_nz.
 Qed.
+
+(* ---------------- modcovar_marple, IP = 1: the first pass of the main loop ---------------- *)
+Lemma exec_for v lo hi step body (st : store) vals :
+  bind (eval feq st lo) (fun vl => bind (eval feq st hi) (fun vh => bind (eval feq st step) (fun vs =>
+    bind (asZ vl) (fun l => bind (asZ vh) (fun h => bind (asZ vs) (fun s => range_vals l h s)))))) = inl vals ->
+  exec (SFor v lo hi step body) st =
+  match for_loop (exec body) v vals st with (st', CBreak) => (st', CNormal) | other => other end.
+Proof. intros E. cbn [LoopIR.exec]. rewrite E. reflexivity. Qed.
+
+Definition mod_save_body : stmt :=
+  SAssign 18 (EBin BAdd (EVar 18) (EBin BMul (EIndex (EVar 0) (EVar 9)) (EConj (EIndex (EVar 0) (EBin BSub (EBin BSub (EVar 9) (EVar 17)) (EInt 1)))))).
+
+(* the accumulation SAVE1 = sum_{K=1}^{N-1} X[K] conj X[K-1] of pass M = 0, on any store whose slots 0, 9, 17, 18 are as stated *)
+Lemma mod_save_loop_ok (mid1 : list value) (mid2 : list value) (post : list value) tx (x : list F) s0 v9 :
+  forall (Hm1 : length mid1 = 8%nat) (Hm2 : length mid2 = 7%nat),
+  exists v9',
+  for_loop (exec mod_save_body) 9 (range_from 1 1 (length x - 1))
+    (VArr tx x :: mid1 ++ v9 :: mid2 ++ VI 0 :: VF s0 :: post) =
+  (VArr tx x :: mid1 ++ v9' :: mid2 ++ VI 0 :: VF (lsum (length x - 1) (fun i => nthF x (i + 1) * conj (nthF x i)) s0) :: post, CNormal).
+Proof.
+  intros Hm1 Hm2. set (N := length x).
+  destruct mid1 as [|a1 [|a2 [|a3 [|a4 [|a5 [|a6 [|a7 [|a8 [|]]]]]]]]]; try discriminate Hm1.
+  destruct mid2 as [|b1 [|b2 [|b3 [|b4 [|b5 [|b6 [|b7 [|]]]]]]]]; try discriminate Hm2.
+  cbn [app].
+  destruct (for_loop_inv_from (exec mod_save_body) 9%nat
+              (fun i s => exists w, s = VArr tx x :: [a1; a2; a3; a4; a5; a6; a7; a8] ++ w :: [b1; b2; b3; b4; b5; b6; b7] ++
+                                        VI 0 :: VF (lsum i (fun i => nthF x (i + 1) * conj (nthF x i)) s0) :: post)
+              1%Z (N - 1)%nat
+              (VArr tx x :: [a1; a2; a3; a4; a5; a6; a7; a8] ++ v9 :: [b1; b2; b3; b4; b5; b6; b7] ++ VI 0 :: VF s0 :: post)) as [s' [E [w Hw]]].
+  - exists v9. reflexivity.
+  - intros i s Hi [w ->]. eexists. split; [|eexists; reflexivity].
+    cbn [app]. unfold mod_save_body. ev. fold N.
+    rewrite (norm_index_ok N (1 + Z.of_nat i)) by lia. ev. fold N.
+    rewrite (norm_index_ok N (1 + Z.of_nat i - 0 - 1)) by lia. ev.
+    replace (Z.to_nat (1 + Z.of_nat i)) with (i + 1)%nat by lia.
+    replace (Z.to_nat (1 + Z.of_nat i - 0 - 1)) with i by lia.
+    reflexivity.
+  - subst s'. exists w. cbn [app] in E. exact E.
+Qed.
+
+Ltac evx := cbn [LoopIR.exec eval get set nth bind try asZ asArr asF ok err fst snd arith arithZ fop compare cmpZ eqne truthy eval_list app].
+
+
+(* closed form of the model at IP = 1 *)
+Definition m1_P0 (x : list F) : F :=
+  sumf (length x - 2) (fun k => twice (nrm2 (nthF x (k + 1)))) + nrm2 (nthF x 0) + nrm2 (nthF x (length x - 1)).
+Definition m1_S (x : list F) : F := twice (sumf (length x - 1) (fun i => nthF x (i + 1) * conj (nthF x i))).
+Definition m1_C1 (x : list F) : F := - m1_S x / m1_P0 x.
+
+Lemma mod1_model (x : list F) :
+  modcovar_marple x 1 =
+  Some (mk (length x) (fun k => if (k =? 0)%nat then m1_C1 x else 0),
+        m1_P0 x * (1 - nrm2 (m1_C1 x)) / two / ofnat (length x - 1)).
+Proof.
+  set (N := length x).
+  unfold modcovar_marple. cbn [mm_iter]. unfold mm_order. cbn [mm_a mm_p]. unfold mm_init. cbn [mm_p mm_a mm_c mm_d mm_r mm_de mm_ga mm_la]. fold N.
+  assert (EC : - (twice (sumL (mk (N - (0 + 1)) (fun i => nthF x (i + 0 + 1) * conj (nthF x i)))) +
+                  sumL (mk 0 (fun k0 => conj (nthF (mk N (fun k1 => if (k1 <? 0)%nat
+                          then nthF (mk N (fun _ => 0)) k1 - nthF x (N - 0 - 1) * conj (nthF x (N - 0 + k1)) - conj (nthF x 0) * nthF x (0 - k1 - 1)
+                          else if (k1 =? 0)%nat then conj (twice (sumL (mk (N - (0 + 1)) (fun i => nthF x (i + 0 + 1) * conj (nthF x i)))))
+                               else nthF (mk N (fun _ => 0)) k1)) k0) * nthF (mk N (fun _ => 0)) (0 - k0 - 1)))) /
+               (sumL (mk (N - 2) (fun k0 => twice (nrm2 (nthF x (k0 + 1))))) + nrm2 (nthF x 0) + nrm2 (nthF x (N - 1)))
+               = m1_C1 x).
+  { unfold m1_C1, m1_S, m1_P0. fold N. rewrite !sumL_mk. cbn [sumf].
+    replace (N - (0 + 1))%nat with (N - 1)%nat by lia.
+    rewrite (sumf_ext (N - 1) (fun i => nthF x (i + 0 + 1) * conj (nthF x i)) (fun i => nthF x (i + 1) * conj (nthF x i)))
+      by (intros i _; do 2 f_equal; lia).
+    match goal with |- - (?a + 0) / ?d = - ?a / ?d => replace (a + 0) with a by ring end. reflexivity. }
+  rewrite EC.
+  replace (N - 0 - 1)%nat with (N - 1)%nat by lia.
+  do 2 f_equal.
+  - apply mk_ext. intros k Hk. change (k <? 0)%nat with false. cbv iota.
+    destruct (k =? 0)%nat; [reflexivity|]. rewrite nth_mk by exact Hk. reflexivity.
+  - unfold m1_P0. fold N. rewrite sumL_mk. reflexivity.
+Qed.
+
+Lemma updF_zeros_0 n (c : F) : (0 < n)%nat -> updF (mk n (fun _ => 0)) 0 c = mk n (fun k => if (k =? 0)%nat then c else 0).
+Proof. destruct n; [lia|]. intros _. rewrite !mk_S. reflexivity. Qed.
+
+Theorem modcovar_marple_ir_order1 (t : bool) (x : list F) :
+  x <> [] ->
+  run feq stop prog_modcovar_marple_gen0 [Some (VArr t x); Some (VI 1)] =
+  match modcovar_marple x 1 with
+  | Some (a, p) => ORet [VArr false a; VF p; VArr false [p]]
+  | None => OErr ValueError
+  end.
+Proof.
+  intros Hx. pose proof (len_pos x Hx) as HN.
+  set (N := length x) in *.
+  assert (I0 : norm_index N 0 = inl 0%nat) by (apply (norm_index_ok N 0); lia).
+  assert (I1 : norm_index N (Z.of_nat N - 1) = inl (N - 1)%nat).
+  { rewrite norm_index_ok by lia. f_equal. lia. }
+  unfold run, prog_modcovar_marple_gen0. cbn [p_defaults p_body p_nslots p_nparams bind_args bind ok Nat.sub app repeat].
+  (* the initialisation, as for IP = 0 *)
+  erewrite xseq; [|ev; reflexivity].
+  erewrite xseq; [|ev; reflexivity].
+  erewrite xseq; [|ev; fold N; reflexivity].
+  do 4 (erewrite xseq; [|ev; rewrite zlt0, Nat2Z.id; reflexivity]).
+  erewrite xseq; [|ev; reflexivity].
+  destruct (mod_init_loop_ok t x 1%Z (lit 0 0) VUnbound) as [v9 EL]. unfold mst, mod_init_loop, mod_init_body in EL. fold N in EL.
+  erewrite xseq; [|exact EL].
+  erewrite xseq; [|ev; fold N; rewrite I0; ev; reflexivity].
+  erewrite xseq; [|ev; fold N; rewrite I1; ev; reflexivity].
+  do 4 (erewrite xseq; [|ev; reflexivity]).
+  erewrite xseq; [|ev; fold N; rewrite I0, I1; ev; reflexivity].
+  erewrite xseq; [|ev; rewrite mk_length, I0; ev; fold N; rewrite I1; ev; reflexivity].
+  erewrite xseq; [|ev; rewrite mk_length, I0; ev; fold N; rewrite I0; ev; reflexivity].
+  erewrite xseq; [|ev; reflexivity].
+  erewrite xseq; [|ev; change (1 =? 0)%Z with false; cbv iota; reflexivity].
+  (* the main loop: one pass, M = 0 *)
+  rewrite (exec_for _ _ _ _ _ _ [0%Z]) by reflexivity.
+  cbn [for_loop set].
+  erewrite xseq; [|ev; reflexivity].
+  match goal with |- context [LoopIR.exec _ _ (SSeq (SFor 9 _ _ _ _) _) (_ :: ?a1 :: ?a2 :: ?a3 :: ?a4 :: ?a5 :: ?a6 :: ?a7 :: ?a8 :: ?w9 :: ?b1 :: ?b2 :: ?b3 :: ?b4 :: ?b5 :: ?b6 :: ?b7 :: VI 0 :: VF ?s0 :: ?post)] =>
+    destruct (mod_save_loop_ok [a1;a2;a3;a4;a5;a6;a7;a8] [b1;b2;b3;b4;b5;b6;b7] post t x s0 w9 eq_refl eq_refl) as [w ES] end.
+  unfold mod_save_body in ES. cbn [app] in ES. fold N in ES.
+  erewrite xseq.
+  2:{ erewrite exec_for; cycle 1.
+      { ev. fold N. unfold range_vals. change (1 =? 0)%Z with false. cbv iota. rewrite range_len_1.
+        replace (Z.to_nat (Z.of_nat N - (0 + 1))) with (N - 1)%nat by lia. change (0 + 1)%Z with 1%Z. reflexivity. }
+      rewrite ES. reflexivity. }
+  erewrite xseq; [|ev; reflexivity].
+  erewrite xseq; [|ev; rewrite mk_length, I0; ev; reflexivity].
+  erewrite xseq; [|ev; fold N; rewrite I1; ev; rewrite updF_length, mk_length, I0; ev; reflexivity].
+  erewrite xseq; [|ev; fold N; rewrite I1; ev; rewrite updF_length, mk_length, I0; ev; reflexivity].
+  erewrite xseq; [|ev; fold N; rewrite I0; ev; rewrite updF_length, mk_length, I0; ev; reflexivity].
+  erewrite xseq; [|ev; change (0 =? 0)%Z with true; cbv iota; reflexivity].
+  erewrite xseq; [|ev; reflexivity].
+  erewrite xseq; [|ev; rewrite mk_length, I0; ev; reflexivity].
+  erewrite xseq; [|ev; reflexivity].
+  erewrite xseq; [|ev; change (0 =? 0)%Z with true; cbv iota; reflexivity].
+  erewrite xstop; cycle 1.
+  { evx. change (0 + 1 =? 1)%Z with true. cbv iota. reflexivity. }
+  { discriminate. }
+  cbv iota beta.
+  rewrite mod1_model. fold N. cbn [andb].
+  set (S := lsum (N - 1) (fun i => nthF x (i + 1) * conj (nthF x i)) (ofZ 0 + lit 0 0)).
+  set (P0 := lsum (N - 2) (fun k => lit 2 0 * sqparts (nthF x (k + 1))) (lit 0 0) + (re (nthF x 0) * re (nthF x 0) + imagsq (nthF x 0))
+             + (re (nthF x (N - 1)) * re (nthF x (N - 1)) + imagsq (nthF x (N - 1)))).
+  set (C1 := - (S * lit 2 0) / P0).
+  assert (ESs : S = sumf (N - 1) (fun i => nthF x (i + 1) * conj (nthF x i))).
+  { unfold S. rewrite lsum_sumf, lit_0. change (@ofZ F OF 0) with (0 : F). ring. }
+  assert (EP0 : P0 = m1_P0 x).
+  { unfold P0, m1_P0. fold N. rewrite lsum_sumf, lit_0, !nrm2_parts.
+    rewrite (sumf_ext (N - 2) (fun k => lit 2 0 * sqparts (nthF x (k + 1))) (fun k => twice (nrm2 (nthF x (k + 1))))).
+    2:{ intros i _. unfold sqparts. rewrite nrm2_parts, lit_2. unfold twice, two, nrm2. ring. }
+    unfold nrm2. ring. }
+  assert (EC1 : C1 = m1_C1 x).
+  { unfold C1, m1_C1, m1_S. fold N. rewrite ESs, EP0, lit_2. unfold twice, two.
+    match goal with |- - (?a * (1 + 1)) / _ = _ => replace (a * (1 + 1)) with (a + a) by ring end. reflexivity. }
+  rewrite updF_zeros_0 by exact HN.
+  replace (Z.of_nat N - 0 - 1)%Z with (Z.of_nat (N - 1)) by lia. rewrite ofZ_of_nat.
+  rewrite lit_half, lit_1.
+  replace (1 - re C1 * re C1 - imagsq C1) with (1 - nrm2 C1) by (unfold nrm2; rewrite <- (nrm2_parts C1); ring).
+  replace (1 / two * (P0 * (1 - nrm2 C1))) with (P0 * (1 - nrm2 C1) / two) by (field; apply two_nz).
+  rewrite EC1, EP0. reflexivity.
+Qed.
 End Order0.
 
 Print Assumptions arcovar_marple_ir_assert.
 Print Assumptions arcovar_marple_ir_order0.
 Print Assumptions modcovar_marple_ir_order0.
+Print Assumptions modcovar_marple_ir_order1.
